@@ -959,12 +959,18 @@ def run_e2e_shard(prop, spec):
     elif case == "c18":
         v, nt, inc = run(c18_case, backend, seed, counters)
         main = "e2e_accept_decisions"
+    elif case == "query":
+        v, nt, inc = run(query_case, backend, spec.get("workers", 2), seed, counters, nreqs=spec.get("nreqs", 40))
+        main = "e2e_reqs_answered"
+    elif case == "c03":
+        v, nt, inc = run(c03_case, backend, spec.get("workers", 2), seed, counters)
+        main = "e2e_forgeries_submitted"
     elif case == "c16":
         v, nt, inc = run(c16_case, backend, spec.get("workers", 2), seed, counters)
         main = "e2e_allow_list_decisions"
     else:
         raise ValueError(case)
-    v = [x for x in v if x.get("prop") in (None, prop) or prop not in ("C08", "C09")]
+    v = [x for x in v if x.get("prop") in (None, prop) or prop not in ("C01", "C02", "C08", "C09")]
     seen, out = {}, []
     for x in v:
         seen[x["key"]] = seen.get(x["key"], 0) + 1
@@ -1773,6 +1779,187 @@ async def c18_case(backend, seed, counters):
                     V("over-block/REQ", "only %d REQs were answered within %.1f s although the rule allows %d per minute (%d refused)" % (answered, took, N_REQ, limited))
             else:
                 inconcl.append("e2e c18: the REQs took %.0f s (throttling), longer than the rule's interval" % took)
+    finally:
+        for c in conns:
+            await c.close()
+        srv.stop()
+    return viols, nontrivial, inconcl
+
+
+# ---------------------------------------------------------------------------------------------------
+# C01 / C02: the answer to a REQ does not depend on which worker process is asked, nor on a restart
+# ---------------------------------------------------------------------------------------------------
+async def query_case(backend, workers, seed, counters, nreqs=40):
+    r = random.Random(seed)
+    viols, nontrivial, inconcl = [], [], []
+    srv = e2e.Server(backend=backend, workers=workers)
+    rp = {"mode": "e2e", "e2e": "query", "backend": backend, "workers": workers, "seed": seed}
+    conns = []
+    seqn = [0]
+
+    def V(prop, key_, msg):
+        viols.append({"key": "e2e/%s/%s" % (backend, key_), "msg": "[e2e %s, %d worker processes] %s" % (backend, workers, msg), "replay": rp, "prop": prop})
+
+    async def ask(c, filters):
+        seqn[0] += 1
+        sid = "q%d" % seqn[0]
+        n0 = await c.send(["REQ", sid] + filters)
+        fr = await c.wait_for(lambda fr: [m for m in fr if isinstance(m, list) and (m[:2] == ["EOSE", sid] or m[:1] == ["NOTICE"])], timeout=40, since=n0)
+        await c.send(["CLOSE", sid])
+        if not fr or fr[-1][0] != "EOSE":
+            return None
+        return [m[2] for _, m in event_frames(c, sid)]
+
+    try:
+        srv.start()
+        peers = await spread(srv, "c", 1, 24)
+        conns.extend(peers)
+        byw = {}
+        for c in peers:
+            byw.setdefault(c.worker, c)
+        if workers > 1 and len(byw) < 2:
+            inconcl.append("e2e query: all connections landed on one worker process")
+        ws = list(byw.values())
+        u = gen.Universe(seed)
+        events = [e for e in u.store(60, hostile=False, history=False) if isinstance(e, dict)]
+        accepted = {}
+        for i, ev in enumerate(events):
+            c = ws[i % len(ws)]
+            n0 = await c.send(["EVENT", ev])
+            fr = await c.wait_for(lambda fr: [m for m in fr if isinstance(m, list) and m[:1] == ["OK"]], timeout=30, since=n0)
+            if fr and fr[-1][2] is True:
+                accepted[ev["id"]] = ev
+            elif fr and fr[-1][2] is False:
+                ws[i % len(ws)] = await connect_placed(srv, "c-again%d" % i)  # the refused one is being slowed down by the relay
+                conns.append(ws[i % len(ws)])
+        await asyncio.sleep(1.0)
+        # what is stored is what the store files say after the writers are through (read through the relay itself: ids)
+        pool = list(accepted.values())
+        reqs = []
+        for _ in range(nreqs):
+            n = 1 if r.random() < 0.7 else r.randint(2, 3)
+            reqs.append([u.wellformed_filter(pool, max_conds=r.choice([1, 2, 2, 3]), limit=r.choice([None, None, None, 500])) for _ in range(n)])
+
+        async def sweep(label, targets):
+            for filters in reqs:
+                answers = []
+                for c in targets:
+                    a = await ask(c, filters)
+                    answers.append(a)
+                    bump(counters, "e2e_reqs_answered")
+                    if a is None:
+                        continue
+                    ids = [e.get("id") for e in a]
+                    for e in a:
+                        src = accepted.get(e.get("id"))
+                        if src is None or ref.match_any(src, filters) == "NO":
+                            V("C01", "unsound/%s" % label, "REQ %s on worker %s returned event %s that %s" % (json.dumps(filters)[:200], c.worker, str(e.get("id"))[:12],
+                                                                                                           "was never accepted" if src is None else "matches none of its filters"))
+                    for f in filters:
+                        must = [i for i, ev in accepted.items() if ref.match3(ev, f) == "MUST"]
+                        may = [i for i, ev in accepted.items() if ref.match3(ev, f) != "NO"]
+                        if must and len(may) <= f.get("limit", 500):
+                            nontrivial.append(h(["e2e-query", backend, label, json.dumps(f, sort_keys=True)]))
+                            bump(counters, "e2e_completeness_obligations")
+                            # (replaceable kinds superseded / deleted in the store are not owed: the universe here has no history)
+                            missing = [i for i in must if i not in ids]
+                            if missing:
+                                V("C02", "missing/%s" % label, "REQ %s on worker %s did not return stored matching event %s (%d of %d missing)" % (json.dumps(f)[:200], c.worker, missing[0][:12], len(missing), len(must)))
+                got = [sorted(e.get("id") for e in a) for a in answers if a is not None]
+                if len(got) > 1 and any(g != got[0] for g in got[1:]) and not any("limit" in f for f in filters):
+                    V("C02", "workers-disagree/%s" % label, "REQ %s is answered differently by different worker processes (%s)" % (json.dumps(filters)[:200], [len(g) for g in got]))
+
+        await sweep("running", ws)
+        for c in conns:
+            await c.close()
+        del conns[:]
+        srv.stop()
+        srv.start()
+        c = await e2e.Client(srv, "after-restart").connect()
+        c.worker = None
+        conns.append(c)
+        await sweep("after-restart", [c])
+    finally:
+        for c in conns:
+            await c.close()
+        srv.stop()
+    return viols, nontrivial, inconcl
+
+
+# ---------------------------------------------------------------------------------------------------
+# C03: a forgery is refused by every worker, whatever another worker has verified before
+# ---------------------------------------------------------------------------------------------------
+async def c03_case(backend, workers, seed, counters):
+    r = random.Random(seed)
+    viols, nontrivial, inconcl = [], [], []
+    srv = e2e.Server(backend=backend, workers=workers)
+    rp = {"mode": "e2e", "e2e": "c03", "backend": backend, "workers": workers, "seed": seed}
+    conns = []
+    seqn = [0]
+
+    def V(key_, msg):
+        viols.append({"key": "e2e/%s/%s" % (backend, key_), "msg": "[e2e %s, %d worker processes] %s" % (backend, workers, msg), "replay": rp})
+
+    try:
+        srv.start()
+        peers = await spread(srv, "c", 2, 36)
+        conns.extend(peers)
+        byw = {}
+        for c in peers:
+            byw.setdefault(c.worker, []).append(c)
+        if workers > 1 and len(byw) < 2:
+            inconcl.append("e2e c03: all connections landed on one worker process")
+        # one watcher per worker sees everything that is pushed there
+        watchers = []
+        for w, cs in byw.items():
+            wc = cs[-1]
+            await wc.send(["REQ", "all", {"since": 1}])
+            await wc.wait_for(lambda fr: any(isinstance(m, list) and m[:2] == ["EOSE", "all"] for m in fr), timeout=30)
+            watchers.append(wc)
+        await asyncio.sleep(3.0)
+        k1, k2, dg = ref.key_from_seed("e2e-c03-a"), ref.key_from_seed("e2e-c03-b"), ref.key_from_seed("e2e-c03-delegator")
+        submitters = [cs[0] for cs in byw.values()]
+        todo = []
+        for i in range(6):
+            w_gen = submitters[i % len(submitters)]
+            genuine = ref.make_event(k1, kind=1, created_at=T0 + i, tags=[["t", "g%d" % i]], content="genuine %d %d" % (seed, i), delegation=(dg, "kind=1") if i % 2 else None)
+            n0 = await w_gen.send(["EVENT", genuine])
+            await w_gen.wait_for(lambda fr: [m for m in fr if isinstance(m, list) and m[:1] == ["OK"]], timeout=30, since=n0)
+            variants = [
+                ("same-id-and-sig-other-content", dict(genuine, content="FORGED %d" % i)),
+                ("same-id-and-sig-other-tags", dict(genuine, tags=[["t", "FORGED-%d" % i]])),
+                ("sig-of-another-event", dict(ref.make_event(k1, kind=1, created_at=T0 + 100 + i, tags=[], content="FORGED sig %d" % i), sig=genuine["sig"])),
+            ]
+            if i % 2:
+                thief = ref.make_event(k2, kind=1, created_at=T0 + 200 + i, tags=[t for t in genuine["tags"] if t[0] == "delegation"], content="FORGED delegation %d" % i)
+                variants.append(("delegation-transplanted-after-genuine-accepted-elsewhere", thief))
+            for label, f in variants:
+                for _ in submitters:
+                    todo.append((label, f, w_gen.worker))
+
+        async def offer(idx, label, f, gen_worker):
+            # a connection that was refused is slowed down by the relay (real 2 s sleep before the OK): a fresh one per forgery
+            c = await e2e.Client(srv, "f%d" % idx).connect()
+            conns.append(c)
+            n0 = await c.send(["EVENT", f])
+            fr = await c.wait_for(lambda fr: [m for m in fr if isinstance(m, list) and m[:1] == ["OK"]], timeout=40, since=n0)
+            ok = fr[-1][2] if fr else None
+            bump(counters, "e2e_forgeries_submitted")
+            nontrivial.append(h(["e2e-c03", backend, label]))
+            if ok is True and ref.authentic(f)[0] is False:
+                V("acknowledged/%s" % label, "a forgery (%s) was acknowledged OK true by a worker after worker %s had verified the genuine event" % (label, gen_worker))
+
+        for i in range(0, len(todo), 16):
+            await asyncio.gather(*[offer(i + j, *t) for j, t in enumerate(todo[i:i + 16])])
+        await e2e.settle(conns, quiet=1.5, timeout=60)
+        marks = ("FORGED",)
+        for wc in watchers:
+            for _, m in event_frames(wc, "all"):
+                ev = m[2]
+                if isinstance(ev, dict) and (any(x in str(ev.get("content")) for x in marks) or any("FORGED" in str(t) for t in ev.get("tags", []))) and ref.authentic(ev)[0] is False:
+                    V("pushed", "a forgery was pushed to a subscriber on worker %s: %s" % (wc.worker, json.dumps(ev)[:200]))
+                    break
+        bump(counters, "e2e_watchers_checked", len(watchers))
     finally:
         for c in conns:
             await c.close()
